@@ -141,6 +141,20 @@ def prop(case):
             blocks.append((None, 'top', []))
         blocks[bindex[key]][2].append(entry)
         nic += 1
+    # an interconnect entry whose origin is a flip-flop output that is not connected at all (no line): there is nothing to annotate, every
+    # other entry must still arrive. (Entries between two pins that are connected, but not to each other, are invalid SDF and not generated.)
+    if case['hdr'] % 2 == 0 and pins:
+        d_inst, d_pin, d_src = pins[0]
+        for i_ in insts:
+            open_out = [p_ for p_, s_ in i_['outs'].items() if s_ is None]
+            if len(i_['outs']) == 2 and open_out:
+                key = (None, 0)
+                if key not in bindex:
+                    bindex[key] = len(blocks)
+                    blocks.append((None, 'top', []))
+                blocks[bindex[key]][2].append((f'(INTERCONNECT {sdf_name(i_["name"])}/{open_out[0]} {sdf_name(d_inst["name"])}/{d_pin} (0.5:0.5:0.5))',
+                                               'none', 0, [0, 1], None))
+                break
     # interconnects that end at an output port
     for sel, psel, vals, blk in case['ic']:
         if psel % 3 or not nl['po']:
